@@ -1193,12 +1193,17 @@ impl Ty {
                 },
             ) => found_size == expected_size && found_ty.can_fit_into(expected_ty),
             (_, Ty::Any) => true,
+            // instantiations of one generic declaration share its uid, so the members have to agree too
             (
-                Ty::ConcreteStruct { uid: found_uid, .. },
                 Ty::ConcreteStruct {
-                    uid: expected_uid, ..
+                    uid: found_uid,
+                    members: found_members,
                 },
-            ) => found_uid == expected_uid,
+                Ty::ConcreteStruct {
+                    uid: expected_uid,
+                    members: expected_members,
+                },
+            ) => found_uid == expected_uid && found_members == expected_members,
             (
                 Ty::AnonStruct {
                     members: found_members,
@@ -1242,19 +1247,31 @@ impl Ty {
                 true
             }
             (
-                Ty::Distinct { uid: found_uid, .. },
                 Ty::Distinct {
-                    uid: expected_uid, ..
+                    uid: found_uid,
+                    sub_ty: found_sub,
                 },
-            ) => found_uid == expected_uid,
+                Ty::Distinct {
+                    uid: expected_uid,
+                    sub_ty: expected_sub,
+                },
+            ) => found_uid == expected_uid && found_sub == expected_sub,
             (found, Ty::Distinct { sub_ty: ty, .. }) => found.can_fit_into(ty),
             (
-                Ty::EnumVariant { uid: found_uid, .. },
                 Ty::EnumVariant {
-                    uid: expected_uid, ..
+                    uid: found_uid,
+                    sub_ty: found_sub,
+                    ..
                 },
-            ) => found_uid == expected_uid,
-            (Ty::EnumVariant { enum_uid, .. }, Ty::Enum { uid, .. }) => enum_uid == uid,
+                Ty::EnumVariant {
+                    uid: expected_uid,
+                    sub_ty: expected_sub,
+                    ..
+                },
+            ) => found_uid == expected_uid && found_sub == expected_sub,
+            (Ty::EnumVariant { enum_uid, .. }, Ty::Enum { uid, variants }) => {
+                enum_uid == uid && variants.iter().any(|variant| **variant == *self)
+            }
             (Ty::Nil, Ty::Optional { .. }) => true,
             (
                 Ty::Optional { sub_ty: found_sub },
